@@ -15,7 +15,7 @@ void h_configure(HConfig &cfg) {
 }
 
 struct AAtt { uint64_t memory = 0; std::string memtxt; };
-struct ALevel { std::string name; hwloc_obj_type_t type; unsigned arity; uint64_t size = 0; std::string sizetxt; std::vector<AAtt> att; std::string idx; std::vector<unsigned> perm; std::vector<int> intlv; /* depths (indexes into levels) listed outermost first */ };
+struct ALevel { std::string name; hwloc_obj_type_t type; unsigned arity; uint64_t size = 0; std::string sizetxt; std::vector<AAtt> att; std::string idx; bool idx_first = false; std::string extra; /* a further attribute written after indexes= */ std::vector<unsigned> perm; std::vector<int> intlv; /* depths (indexes into levels) listed outermost first */ };
 struct ADesc { std::vector<AAtt> rootatt; std::vector<ALevel> lv; bool numa_level = false; bool has_attached = false; };
 
 static const struct { const char *txt; uint64_t v; } MEMS[] = {{"1GB", 1000000000ULL}, {"256MB", 256000000ULL}, {"3GiB", 3ULL << 30}, {"1048576", 1048576ULL}, {"2TB", 2000000000000ULL}, {"64kB", 64000ULL}, {"5MiB", 5ULL << 20}};
@@ -26,7 +26,10 @@ static std::string render(const ADesc &a) {
   auto att = [&](const std::vector<AAtt> &v) { for (auto &x : v) s += x.memory ? "[numa(memory=" + x.memtxt + ")] " : "[numa] "; };
   att(a.rootatt);
   for (size_t i = 0; i < a.lv.size(); i++) { const ALevel &l = a.lv[i]; s += l.name + ":" + std::to_string(l.arity);
-    std::string attrs; if (l.size) attrs += (l.type == HWLOC_OBJ_NUMANODE ? "memory=" : "size=") + l.sizetxt; if (!l.idx.empty()) { if (!attrs.empty()) attrs += " "; attrs += "indexes=" + l.idx; }
+    std::string attrs, sz; if (l.size) sz = (l.type == HWLOC_OBJ_NUMANODE ? "memory=" : "size=") + l.sizetxt;   // attributes are space-separated, in any order
+    if (l.idx_first) { if (!l.idx.empty()) attrs += "indexes=" + l.idx; if (!sz.empty()) { if (!attrs.empty()) attrs += " "; attrs += sz; } }
+    else { attrs = sz; if (!l.idx.empty()) { if (!attrs.empty()) attrs += " "; attrs += "indexes=" + l.idx; } }
+    if (!l.extra.empty()) { if (!attrs.empty()) attrs += " "; attrs += l.extra; }
     if (!attrs.empty()) s += "(" + attrs + ")"; s += " "; att(l.att); }
   while (!s.empty() && s.back() == ' ') s.pop_back(); return s;
 }
@@ -59,12 +62,17 @@ static ADesc gen_desc(Draw &d) {
     std::vector<int> sel; for (int x : cand) if (d.chance(1, 2)) sel.push_back(x);
     // the types may be listed in any order (the first listed varies fastest), not only outermost first (seeded change C07)
     if (sel.size() >= 2 && d.chance(1, 2)) { for (size_t i = sel.size(); i > 1; i--) std::swap(sel[i - 1], sel[d.raw() % i]); }
-    if (!sel.empty()) { for (size_t k = 0; k < sel.size(); k++) pu.idx += (k ? ":" : "") + a.lv[sel[k]].name; pu.intlv = sel; /* (listing the PU level itself is not accepted by the parser - the specification is then ignored - and not documented) */ } }
+    // the same interleaving written as step*number loops (the documented numeric form) instead of type names, possibly followed by another attribute
+    if (!sel.empty() && d.chance(1, 2)) { std::vector<unsigned long> cum(a.lv.size()); unsigned long p2 = 1; for (size_t k = 0; k < a.lv.size(); k++) { p2 *= a.lv[k].arity; cum[k] = p2; } unsigned long total = p2;
+      std::vector<int> byd = sel; std::sort(byd.begin(), byd.end());
+      for (size_t k = 0; k < sel.size(); k++) { int lvl = sel[k]; unsigned long outerw = 1; for (int o2 : byd) if (o2 < lvl) outerw = cum[o2]; pu.idx += (k ? ":" : "") + std::to_string(total / cum[lvl]) + "*" + std::to_string(cum[lvl] / outerw); }
+      pu.intlv = sel; if (d.chance(1, 2)) pu.extra = "memory=0"; }
+    else if (!sel.empty()) { for (size_t k = 0; k < sel.size(); k++) pu.idx += (k ? ":" : "") + a.lv[sel[k]].name; pu.intlv = sel; /* (listing the PU level itself is not accepted by the parser - the specification is then ignored - and not documented) */ } }
   // an explicit index list on one other level that carries OS indexes (Package, Die, Core, NUMA level), when the PU level has none:
   // the objects of that level are then numbered by the list in creation order, which is their logical order
   if (pu.idx.empty() && !deep && d.chance(1, 3)) { std::vector<size_t> cand; unsigned long w = 1; std::vector<unsigned long> cumw; for (size_t i = 0; i + 1 < a.lv.size(); i++) { w *= a.lv[i].arity; cumw.push_back(w); if ((a.lv[i].type == HWLOC_OBJ_PACKAGE || a.lv[i].type == HWLOC_OBJ_DIE || a.lv[i].type == HWLOC_OBJ_CORE || a.lv[i].type == HWLOC_OBJ_NUMANODE) && w <= 96) cand.push_back(i); }
     if (!cand.empty()) { size_t k = cand[d.raw() % cand.size()]; ALevel &l = a.lv[k]; unsigned long n = cumw[k]; std::vector<unsigned> q(n); for (unsigned i = 0; i < n; i++) q[i] = i; for (unsigned long i = n; i > 1; i--) std::swap(q[i - 1], q[d.raw() % i]); int sp = d.range(0, 3); if (sp == 1) for (auto &x : q) x = x * 2 + 3; else if (sp == 2) for (auto &x : q) x += 1;   // lists that do not start at 0, sparse lists
-      l.perm = q; for (unsigned long i = 0; i < n; i++) l.idx += (i ? "," : "") + std::to_string(q[i]); } }
+      l.perm = q; for (unsigned long i = 0; i < n; i++) l.idx += (i ? "," : "") + std::to_string(q[i]); l.idx_first = d.chance(1, 2); } }
   return a;
 }
 
